@@ -50,6 +50,21 @@ func (dht *DHT) FindPeer(ctx context.Context, pid peer.ID) (pi peer.AddrInfo, er
   ensures [internal-lan-only] imp(len(wanInfo.Addrs) == 0, pi.Addrs == lanInfo.Addrs)
   ensures [internal-wan-only] imp(len(wanInfo.Addrs) != 0 && len(lanInfo.Addrs) == 0, pi.Addrs == wanInfo.Addrs)
 
+# C03/C08: both inner searches run under the request context this operation
+# cancels when it ends (reqCtx) - not merely under the caller's context: when
+# the merge stops early (count reached, caller gone) the inner lookups are
+# cancelled with it instead of blocking forever on a channel nobody reads
+func (dht *DHT) FindProvidersAsync(ctx context.Context, key cid.Cid, count int) (ch <-chan peer.AddrInfo)
+  props C03 C08 C15
+  requires dht.WAN != nil && dht.LAN != nil
+  ghostvar $n int = 0
+  modifies *
+  ensures [both-searched] $n == 2
+  # (#0 is the tracer call of the same name)
+  ghost at before call(FindProvidersAsync)#1: assert($recv == dht.WAN && ctxUnder($arg0, reqCtx) && $arg1 == key && $arg2 == count); $n = $n + 1
+  ghost at before call(FindProvidersAsync)#2: assert($recv == dht.LAN && ctxUnder($arg0, reqCtx) && $arg1 == key && $arg2 == count); $n = $n + 1
+  ghost at go(func): assert(true)
+
 # merge goroutine of FindProvidersAsync: every forwarded provider is new, and
 # with a positive count at most count providers are forwarded
 funclit 1 in (dht *DHT) FindProvidersAsync(ctx context.Context, key cid.Cid, count int) (ch <-chan peer.AddrInfo)
@@ -61,6 +76,9 @@ funclit 1 in (dht *DHT) FindProvidersAsync(ctx context.Context, key cid.Cid, cou
   ensures [closed] tagged("closed:outCh")
   loop 0 invariant found != nil && $sent >= 0 && (zeroCount || ($sent + count == $count0 && count >= 0))
   ghost at send(outCh): $sent = $sent + 1; assert(!has(found, pi.ID) && $msg == pi)
+  ghostvar $cancelled bool = false
+  ensures [request-context-cancelled-on-exit] $cancelled
+  ghost at call(cancel): $cancelled = true
 
 # C14: if the LAN DHT cannot be built, the WAN DHT that is already running is
 # closed before the error is returned; Close closes both.
